@@ -6,7 +6,8 @@
 //   stdout: "case <id>", "b <hex>", one "m <item>" line per item, "end"
 // Objects: "B <class> <id> [ body ]" is loaded into an object the host owns (arc.ArchiveObject(obj)); "N <class> <id> [ body ]"
 // is written the same way but loaded with arc.ReadObject<T>() (the Archiver creates the instance; when the load fails the host
-// owns nothing).  The plain / weak pointers of a body are MEMBERS of the host object (the first 8 of them).
+// owns nothing); "U <class> <id> [ body ]" is loaded with the untyped arc.ReadObject() (the class is created from the name in the
+// archive; the host takes ownership of the returned Class*).  The plain / weak pointers of a body are MEMBERS of the host object (the first 8 of them).
 // Script variables:  "V <key> <token> <token> ..."  key: * = ArchiveInternal, ~ = Archive with no key
 // string, hex = Archive with that key.  The tokens are the variable and everything it contains in
 // archive order (depth first, keys and values of an array alternating):  <vid>:<kind>[:args]
@@ -17,6 +18,11 @@
 // Read back, a variable is printed canonically: "V <key> <vid>=<value>", arrays as
 // A#<n>/<refCount>{key=>value,..} sorted by key text ("!" after a key that find() does not find), constant
 // arrays K#<n>/<refCount>[..], holders numbered by first visit, a holder seen before as A#<n>.
+// Listeners (class 2): the first leaves of the body are what Listener::Archive itself writes - "P u8 <flag>" and, per section,
+// the set header and entries; "] @ <k> n:<namehex>:<id,id> w:<namehex>:<ids> v:<namehex>" after the body says how many leaves
+// those are and which lists the listener has (n: this->Register(name, other); w: what others registered on it; v: one variable
+// in its variable list, the keyed V leaf among the k leaves).  Read back, these leaves are echoed when RegisterSize /
+// WaitingSize / the variable are as described and Unregister(name, other) empties both sides; otherwise "!listener ...".
 // After the read-back every array (original and loaded) is USED: find every key, insert 40 fresh keys (rehashes), find all,
 // remove all, destroy; the "e" line says whether the loaded arrays behaved like the originals (ASan watches all of it).
 // The functions c10_write / c10_read are also used by harness/C11.cpp (damaged archives).
@@ -72,6 +78,8 @@ struct LeafSlot {
     std::unique_ptr<str> s;
     Class* ptr = nullptr;
     std::unique_ptr<SafePtr<Class>> sp;
+    bool byListener = false;            // a leading leaf of a listener's body that Listener::Archive itself writes / reads
+    std::string text;                   // ... and its text (echoed when the loaded listener state is what it describes)
     Class** extPtr = nullptr;           // Q inside an object's body: the pointer is a MEMBER of the host object
     SafePtr<Class>* extSp = nullptr;
     // V: a script variable
@@ -83,6 +91,9 @@ struct LeafSlot {
 struct ItemSlot {
     bool isObj = false;
     bool viaRead = false;       // "N": the reader loads the object with arc.ReadObject<T>() instead of ArchiveObject(obj)
+    std::vector<std::string> lisSpec;   // "@ k n:<name>:<ids> w:<name>:<ids> v:<name>": the lists of a listener
+    std::string lisError;
+    bool untyped = false;       // "U": the reader loads it with the untyped arc.ReadObject() (class taken from the archive)
     int cls = 0;
     long id = -1;
     LeafSlot leaf;
@@ -229,10 +240,11 @@ static bool parseItem(const std::string& line, ItemSlot& it)
     std::string x;
     while (is >> x) t.push_back(x);
     if (t.empty()) return false;
-    if (t[0] == "B" || t[0] == "N") {
+    if (t[0] == "B" || t[0] == "N" || t[0] == "U") {
         if (t.size() < 5 || t[3] != "[") return false;
         it.isObj = true;
-        it.viaRead = t[0] == "N";
+        it.viaRead = t[0] != "B";
+        it.untyped = t[0] == "U";
         it.cls = std::stoi(t[1]);
         if (it.cls < 0 || it.cls > 3) it.cls = 3;
         it.id = std::stol(t[2]);
@@ -245,7 +257,17 @@ static bool parseItem(const std::string& line, ItemSlot& it)
                 if (!parseLeaf(t, a, b, l)) return false;
                 it.body.push_back(std::move(l));
             }
+            if (b > a) { std::string tx; for (size_t q = a; q < b; ++q) { if (q > a) tx += " "; tx += t[q]; } it.body.back().text = tx; }
             a = (b < t.size() && t[b] == ";") ? b + 1 : b;
+        }
+        // a listener: Listener::Archive writes the flag byte and the sections itself ("@ k ...": the first k leaves)
+        if (it.cls == 2) {
+            size_t k = (!it.body.empty() && it.body[0].kind == 'P' && it.body[0].pk == "u8") ? 1 : 0;
+            if (a + 2 < t.size() && t[a] == "]" && t[a + 1] == "@") {
+                k = (size_t)std::stoul(t[a + 2]);
+                for (size_t q = a + 3; q < t.size(); ++q) it.lisSpec.push_back(t[q]);
+            }
+            for (size_t q = 0; q < k && q < it.body.size(); ++q) it.body[q].byListener = true;
         }
         return true;
     }
@@ -265,6 +287,7 @@ struct World {
     std::map<long, bool> built;
     bool unprotected = false;
     std::vector<Class*> extras;
+    std::map<long, bool> applied;
     LeafSlot* curV = nullptr;                           // the script variable whose Archive() is running
     bool hasHolders = false;                            // some variable is an array / constant array / script pointer
     bool hasCycle = false;                              // some array contains itself
@@ -332,6 +355,11 @@ struct World {
         }
         std::map<long, bool> loaded;                 // objects the reader gets from arc.ReadObject<T>()
         if (reading) for (ItemSlot& it : items) if (it.isObj && it.viaRead) loaded[it.id] = true;
+        for (ItemSlot& it : items) for (const std::string& sp : it.lisSpec) {          // listeners only named in a "@" description
+            std::vector<std::string> f = splitOn(sp, ':');
+            if ((f[0] == "n" || f[0] == "w") && f.size() >= 3 && f[2] != "-")
+                for (const std::string& x : splitOn(f[2], ',')) if (!x.empty() && !cls.count(std::stol(x))) cls[std::stol(x)] = 2;
+        }
         for (auto& kv : cls) objs[kv.first] = loaded.count(kv.first) ? nullptr : newHost(kv.second);
         return true;
     }
@@ -555,7 +583,8 @@ struct World {
                 // the second way of loading: the Archiver creates the instance; on failure the host owns nothing
                 g_pendingBody = &it.body;
                 Class* o = nullptr;
-                switch (cls[it.id]) {
+                if (it.untyped) o = arc.ReadObject();            // the class comes from the name in the archive; the host owns the result
+                else switch (cls[it.id]) {
                 case 0: o = arc.ReadObject<VObjA>(); break;
                 case 1: o = arc.ReadObject<VObjB>(); break;
                 case 2: o = arc.ReadObject<VLis>(); break;
@@ -587,6 +616,13 @@ struct World {
 
     std::string showLeaf(const LeafSlot& l) const
     {
+        if (l.byListener) {
+            if (l.kind != 'V' || l.vtoks.empty()) return l.text;
+            std::string t = l.vtoks[0];                       // a scalar variable: "<vid>:<value>" is printed as "<vid>=<value>"
+            const size_t c = t.find(':');
+            if (c != std::string::npos) t[c] = '=';
+            return "V " + l.vkey + " " + t;
+        }
         switch (l.kind) {
         case 'P': {
             uint64_t v = 0;
@@ -626,9 +662,122 @@ struct World {
     std::string showItem(const ItemSlot& it) const
     {
         if (!it.isObj) return showLeaf(it.leaf);
-        std::string out = std::string(it.viaRead ? "N " : "B ") + std::to_string(it.cls) + " " + std::to_string(it.id) + " [";
-        for (size_t i = 0; i < it.body.size(); ++i) { out += i ? " ; " : " "; out += showLeaf(it.body[i]); }
+        std::string out = std::string(it.untyped ? "U " : it.viaRead ? "N " : "B ") + std::to_string(it.cls) + " " + std::to_string(it.id) + " [";
+        for (size_t i = 0; i < it.body.size(); ++i) {
+            out += i ? " ; " : " ";
+            out += (i == 0 && !it.lisError.empty()) ? "!listener " + it.lisError : showLeaf(it.body[i]);
+        }
         return out + " ]";
+    }
+
+    // ---- the lists of a listener (Listener::Register, the variable list)
+    static std::vector<long> idList(const std::string& s)
+    {
+        std::vector<long> out;
+        if (s.empty() || s == "-") return out;
+        for (const std::string& x : splitOn(s, ',')) out.push_back(std::stol(x));
+        return out;
+    }
+
+    LeafSlot* prefixVar(ItemSlot& it)
+    {
+        for (LeafSlot& l : it.body) if (l.byListener && l.kind == 'V') return &l;
+        return nullptr;
+    }
+
+    void buildListeners()
+    {
+        std::map<std::pair<long, long>, bool> done;      // (source, target) registered
+        for (ItemSlot& it : items) if (it.isObj && !it.lisSpec.empty() && !applied.count(it.id))
+            for (const std::string& sp : it.lisSpec) {
+                std::vector<std::string> f = splitOn(sp, ':');
+                if (f[0] == "n" && f.size() >= 3) for (long other : idList(f[2])) done[{ it.id, other }] = true;
+            }
+        std::vector<ItemSlot*> late;
+        for (ItemSlot& it : items) if (it.isObj && !it.lisSpec.empty() && !applied.count(it.id)) late.push_back(&it);
+        buildListeners1();
+        // a "w:" entry whose source listener does not say so itself (a case cut down by the shrinker): register it now
+        for (ItemSlot* it : late)
+            for (const std::string& sp : it->lisSpec) {
+                std::vector<std::string> f = splitOn(sp, ':');
+                if (f[0] != "w" || f.size() < 3) continue;
+                for (long src : idList(f[2])) if (!done.count({ src, it->id }) && objs.count(src) && objs[src]) {
+                    done[{ src, it->id }] = true;
+                    static_cast<Listener*>(objs[src])->Register(constOf(f[1]), static_cast<Listener*>(objs[it->id]));
+                }
+            }
+    }
+
+    void buildListeners1()
+    {
+        for (ItemSlot& it : items) {
+            if (!it.isObj || it.lisSpec.empty() || applied.count(it.id)) continue;
+            applied[it.id] = true;
+            Listener* me = static_cast<Listener*>(objs[it.id]);
+            for (const std::string& sp : it.lisSpec) {
+                std::vector<std::string> f = splitOn(sp, ':');
+                if (f[0] == "n" && f.size() >= 3)
+                    for (long other : idList(f[2])) me->Register(constOf(f[1]), static_cast<Listener*>(objs[other]));
+                if (f[0] == "v" && f.size() >= 2) {
+                    LeafSlot* l = prefixVar(it);
+                    if (!l) continue;
+                    VNode n; size_t i = 0;
+                    ScriptVariable val;
+                    if (parseNode(l->vtoks, i, n)) buildInto(val, n);
+                    me->Vars()->SetVariable(constOf(f[1]), val);
+                }
+            }
+        }
+    }
+
+    void verifyListeners()
+    {
+        for (ItemSlot& it : items) {
+            if (!it.isObj || it.lisSpec.empty() || !objs[it.id]) continue;
+            Listener* me = static_cast<Listener*>(objs[it.id]);
+            std::string err;
+            for (const std::string& sp : it.lisSpec) {
+                std::vector<std::string> f = splitOn(sp, ':');
+                if (f[0] == "n" && f.size() >= 3) {
+                    const size_t want = idList(f[2]).size();
+                    if (me->RegisterSize(constOf(f[1])) != want) err += " RegisterSize(" + f[1] + ")=" + std::to_string(me->RegisterSize(constOf(f[1]))) + " expected " + std::to_string(want);
+                }
+                if (f[0] == "w" && f.size() >= 3) {
+                    const size_t want = idList(f[2]).size();
+                    if (me->WaitingSize(constOf(f[1])) != want) err += " WaitingSize(" + f[1] + ")=" + std::to_string(me->WaitingSize(constOf(f[1]))) + " expected " + std::to_string(want);
+                }
+                if (f[0] == "v" && f.size() >= 2) {
+                    LeafSlot* l = prefixVar(it);
+                    ScriptVariable* got = me->Vars() ? me->Vars()->GetVariable(constOf(f[1])) : nullptr;
+                    VNode n; size_t i = 0;
+                    ScriptVariable want;
+                    if (l && parseNode(l->vtoks, i, n)) buildInto(want, n);
+                    if (!got) err += " variable " + f[1] + " is missing";
+                    else if (valueText(*got) != valueText(want)) err += " variable " + f[1] + "=" + valueText(*got) + " expected " + valueText(want);
+                }
+            }
+            it.lisError = err;
+        }
+        // Unregister(name, other) must empty both sides
+        for (ItemSlot& it : items) {
+            if (!it.isObj || it.lisSpec.empty() || !objs[it.id] || !it.lisError.empty()) continue;
+            Listener* me = static_cast<Listener*>(objs[it.id]);
+            for (const std::string& sp : it.lisSpec) {
+                std::vector<std::string> f = splitOn(sp, ':');
+                if (f[0] != "n" || f.size() < 3) continue;
+                for (long other : idList(f[2])) if (objs[other]) me->Unregister(constOf(f[1]), static_cast<Listener*>(objs[other]));
+            }
+        }
+        for (ItemSlot& it : items) {          // ... when every registration of the case has been taken back
+            if (!it.isObj || it.lisSpec.empty() || !objs[it.id] || !it.lisError.empty()) continue;
+            Listener* me = static_cast<Listener*>(objs[it.id]);
+            for (const std::string& sp : it.lisSpec) {
+                std::vector<std::string> f = splitOn(sp, ':');
+                if ((f[0] != "n" && f[0] != "w") || f.size() < 3) continue;
+                if (me->RegisterSize(constOf(f[1])) != 0) it.lisError += " after Unregister: RegisterSize(" + f[1] + ")=" + std::to_string(me->RegisterSize(constOf(f[1])));
+                if (me->WaitingSize(constOf(f[1])) != 0) it.lisError += " after Unregister: WaitingSize(" + f[1] + ")=" + std::to_string(me->WaitingSize(constOf(f[1])));
+            }
+        }
     }
 
     // ---- using the arrays after the round trip: find every key, grow (forces two rehashes), find again, empty
@@ -802,7 +951,7 @@ static void bindMembers(std::vector<LeafSlot>* leaves, Class** mptr, SafePtr<Cla
     if (!leaves) return;
     size_t k = 0;
     for (LeafSlot& l : *leaves) {
-        if (l.kind != 'Q') continue;
+        if (l.kind != 'Q' || l.byListener) continue;
         if (k < n) {
             l.extPtr = &mptr[k]; l.extSp = &msp[k];
             if (l.ptr) mptr[k] = l.ptr;                              // (writer: the values to be written)
@@ -815,7 +964,7 @@ static void bindMembers(std::vector<LeafSlot>* leaves, Class** mptr, SafePtr<Cla
 static void archiveLeaves(Archiver& arc, std::vector<LeafSlot>* leaves)
 {
     if (!leaves || !g_world) return;
-    for (LeafSlot& l : *leaves) g_world->doLeaf(arc, l);
+    for (LeafSlot& l : *leaves) if (!l.byListener) g_world->doLeaf(arc, l);
 }
 
 // an Archiver call sequence under the catch ladder; returns "ok" | "err <Kind> .." | "exc .."
@@ -862,6 +1011,7 @@ std::string c10_write_x(const CaseSpec& cs, std::string& bytesOut, std::string* 
     World w;
     if (!w.build(cs)) return "exc bad-case";
     w.prepareAll(true);
+    w.buildListeners();
     g_world = &w;
     std::vector<char> buf(1 << 20);
     size_t n = 0;
@@ -901,7 +1051,7 @@ std::string c10_read_x(const CaseSpec& cs, const std::string& bytes, std::vector
     });
     g_world = nullptr;
     lines.clear();
-    if (r == "ok") for (const ItemSlot& it : w->items) lines.push_back(w->showItem(it));
+    if (r == "ok") { w->verifyListeners(); for (const ItemSlot& it : w->items) lines.push_back(w->showItem(it)); }
     if (r == "ok" && exerciseOut) *exerciseOut = w->exercise();          // the LOADED arrays
     if (r != "ok" && w->hasHolders) {
         if (w->hasCycle) return r;                 // a cycle of arrays cannot be destroyed anyway (see World::protect): keep it
